@@ -70,17 +70,18 @@ def num(x):
     return x
 
 
-def close(have, want, tol=1e-8):
-    """|have-want| <= tol*max(1,|want|); exact types compared exactly; tuples elementwise."""
+def close(have, want, tol=1e-8, exact_types=True):
+    """|have-want| <= tol*max(1,|want|); tuples elementwise; with exact_types, two int/Fraction values are
+    compared exactly."""
     have, want = num(have), num(want)
     if isinstance(have, tuple) or isinstance(want, tuple):
         if not (isinstance(have, tuple) and isinstance(want, tuple)) or len(have) != len(want):
             return False
-        return all(close(h, w, tol) for h, w in zip(have, want))
+        return all(close(h, w, tol, exact_types) for h, w in zip(have, want))
     if isinstance(have, bool) or isinstance(want, bool):
         return bool(have) == bool(want)
     try:
-        if isinstance(have, (int, Fraction)) and isinstance(want, (int, Fraction)):
+        if exact_types and isinstance(have, (int, Fraction)) and isinstance(want, (int, Fraction)):
             return have == want
         h, w = float(have), float(want)
     except (TypeError, ValueError):
